@@ -130,6 +130,10 @@ func runJob(name, dir, cfgFile string, prog *ssa.Program, pkgs []*packages.Packa
 		if r := recover(); r != nil {
 			status = "panic"
 			msg = fmt.Sprintf("%v || %s", r, firstRepoFrames(string(debug.Stack())))
+			// if this panic is only the echo of a worker goroutine that is itself panicking (MapParallel's
+			// collector missing a result), let that goroutine bring the process down before END is written, so
+			// that the parent attributes the crash dump to this job
+			time.Sleep(1500 * time.Millisecond)
 		}
 	}()
 	cfg, err := loadCfg(dir, cfgFile)
